@@ -51,7 +51,7 @@ func genStreams(r *simrt.RNG, tier string, variant int, prop string) Plan {
 			n = Pick(r, []int{0, 1, 5, 33})
 		}
 		total += n
-		op := Op{Kind: "sub", Client: r.Intn(len(p.Clients)), Tok: tok, N: n, Hold: r.Bool(0.3)}
+		op := Op{Kind: "sub", Client: r.Intn(len(p.Clients)), Tok: tok, N: n, Hold: r.Bool(0.3), Alias: r.Bool(0.2)}
 		if r.Bool(0.3) {
 			op.Kind = "subt" // struct elements, optionally large (multi-frame values)
 			op.Size = Pick(r, []int{0, 0, 50, 5000})
@@ -280,7 +280,7 @@ func (w *World) checkStreamWire(oracle string) {
 	for _, p := range w.WSPipes() {
 		subReq := map[string]int{} // request id -> tok
 		for _, m := range w.Wire(p, "c2s") {
-			if (m.Method == "T.Sub" || m.Method == "T.SubT" || m.Method == "T.SubF") && m.HasID {
+			if (m.Method == "T.Sub" || m.Method == "T.SubAlias" || m.Method == "T.SubT" || m.Method == "T.SubF") && m.HasID {
 				subReq[m.ID] = tokOfParams(m.Params)
 			}
 		}
